@@ -569,7 +569,7 @@ pub fn run(ctx: &Ctx) -> i32 {
         println!("replay C02: decoder {name}, {} bytes -> {:?}, peak allocation {} bytes", bytes.len(), res, alloc_window_peak());
         return 0;
     }
-    report.rule = "72 decoders (55 struct types, 17 reply enums). (i) exhaustive: every input of length <= 2 and cf,cf,len,body for every body of length <= 2; (ii) corpus of reference encodings of canonical values (>= 8 per type) + the repository's captured packets: every truncation and every single-byte substitution (256 values per offset; quick: offsets < 96 of a seed-dependent sample of 128 packets), each through the packet's own decoder and the reply enums; (iii) structure-aware random mutants of the reference chunk trees (length-prefix forms 81/82/82xx/FF/too long/too short, tag splices, BCD digit overflow, F nibbles, calendar values month 0-19 day 0-39 hour 0-29, duplicated/dropped groups, cuts inside containers) and large bodies up to 65535 bytes; (iv) the stream reader (PacketTransport::read_packet and the *_with_ack operations) over hostile byte streams: every extended header FF lo hi for all 65536 announced lengths with the stream ending behind the header / inside the body / (boundary lengths and a stride) behind the complete body, every short header likewise, random streams - a packet or an error, never a panic. Non-trivial = input of >= 1 byte; distinct by hash of (decoder, input) for random parts, by construction for enumerated parts.".into();
+    report.rule = "72 decoders (55 struct types, 17 reply enums). (i) exhaustive: every input of length <= 2 and cf,cf,len,body for every body of length <= 2; (ii) corpus of reference encodings of canonical values (>= 8 per type) + the repository's captured packets: every truncation and every single-byte substitution (256 values per offset; quick: offsets < 96 of a seed-dependent sample of 128 packets), each through the packet's own decoder and the reply enums; (iii) structure-aware random mutants of the reference chunk trees (length-prefix forms 81/82/82xx/FF/too long/too short, tag splices, BCD digit overflow, F nibbles, calendar values month 0-19 day 0-39 hour 0-29, duplicated/dropped groups, cuts inside containers) and large bodies up to 65535 bytes; (iv) the stream reader (PacketTransport::read_packet and the *_with_ack operations) over hostile byte streams: every extended header FF lo hi for all 65536 announced lengths with the stream ending behind the header / inside the body / (boundary lengths and a stride) behind the complete body, every short header likewise, random streams - a packet or an error, never a panic; (v) BER long forms of 1..126 length bytes (zero / non-zero bytes above the low 1, 2, 4, 8, 9, 16 bytes, all FF, random) given to the length parser: an error or exactly the number written, never a wrapped one. Non-trivial = input of >= 1 byte; distinct by hash of (decoder, input) for random parts, by construction for enumerated parts.".into();
     report.exhaustive = Some(false);
     report.assumptions = vec![
         "allocation bound judged: peak live bytes during one decode <= 256 x input length + 256 KiB".into(),
@@ -681,6 +681,68 @@ pub fn run(ctx: &Ctx) -> i32 {
         }
     }
     report.counters.remove("max_peak_alloc_bytes_shard_sum");
+    // (v) lengths that do not fit: BER long forms of 1..126 length bytes given straight to the length parser.  Whatever
+    //     it supports, it must never hand back a *different* number than the one written (a wrapped or truncated
+    //     length): an error, or exactly (number, data).
+    {
+        use zvt_builder::length::{Length, Tlv};
+        sharded(&mut report, nshards, |shard, r| {
+            let mut rng = Rng::derive(seed, 0xC02_0F17 + shard as u64);
+            let data: Vec<u8> = (0..400u32).map(|i| (i * 7 + 3) as u8).collect();
+            for n in (1..=126usize).filter(|n| n % nshards == shard) {
+                let mut patterns: Vec<Vec<u8>> = vec![];
+                for low in [0usize, 1, 4, 127, 128, 255, 256, 300, 65535] {
+                    // zero high bytes, the value in the low bytes
+                    let mut z = vec![0u8; n];
+                    for k in 0..n.min(8) {
+                        z[n - 1 - k] = (low >> (8 * k)) as u8;
+                    }
+                    patterns.push(z.clone());
+                    // the same with one non-zero byte above the low 8 / 4 / 2 / 1 bytes
+                    for above in [1usize, 2, 4, 8, 9, 16] {
+                        if n > above {
+                            let mut h = z.clone();
+                            h[n - 1 - above] = 1 + rng.below(255) as u8;
+                            patterns.push(h);
+                        }
+                    }
+                    let mut top = z.clone();
+                    top[0] |= 0x80;
+                    patterns.push(top);
+                }
+                patterns.push(vec![0xff; n]);
+                patterns.push((0..n).map(|_| rng.byte()).collect());
+                for lb in patterns {
+                    for dl in [0usize, 1, 4, 300, 400] {
+                        let mut input = vec![0x80 | n as u8];
+                        input.extend(&lb);
+                        input.extend(&data[..dl]);
+                        r.case_enumerated(true);
+                        r.count("inputs.length-does-not-fit", 1);
+                        // the number as written (saturating: anything above 2^64 certainly does not fit)
+                        let mut written: u128 = 0;
+                        let mut huge = false;
+                        for b in &lb {
+                            if written >> 120 != 0 {
+                                huge = true;
+                            }
+                            written = (written << 8) | *b as u128;
+                        }
+                        let case = || json!({"kind": "length-prefix", "style": "Tlv", "input_head": hex(&input[..input.len().min(24)]), "length_bytes": n, "data_len": dl});
+                        match guarded(|| Tlv::deserialize(&input).map(|(l, rest)| (l, rest.len())).map_err(|e| format!("{e:?}"))) {
+                            Err(p) => r.violation(&format!("Tlv.deserialize {}", panic_signature(&p)), &format!("long form with {n} length bytes: {p}"), case()),
+                            Ok(Err(_)) => {}
+                            Ok(Ok((l, rest))) => {
+                                if huge || l as u128 != written || rest != dl {
+                                    r.violation("Tlv.deserialize: a length that does not fit is handed back wrapped", &format!("{n} length bytes spelling {}{written:#x}: parsed as length {l} with {rest} data bytes (data present: {dl})", if huge { "more than 2^120, low part " } else { "" }), case());
+                                }
+                            }
+                        }
+                    }
+                }
+            }
+        });
+    }
     // (iv) the stream reader of zvt/src/io.rs in front of the decoders
     sharded(&mut report, nshards, |shard, r| crate::c04::hostile_transport(r, shard, nshards, seed, quick));
     if !quick && std::env::var("VERIF_NO_MIRI").is_err() {
